@@ -76,6 +76,13 @@ Lemma bind_panic {A B} (m : M A) (k : A -> M B) s w p s' w' :
   m s w = (Panic p, s', w') -> bind m k s w = (Panic p, s', w').
 Proof. intros H. unfold bind. rewrite H. reflexivity. Qed.
 
+Lemma bind_assoc {A B C} (m : M A) (f : A -> M B) (g : B -> M C) s w :
+  bind (bind m f) g s w = bind m (fun x => bind (f x) g) s w.
+Proof. unfold bind. destruct (m s w) as [[[a|p] s1] w1]; reflexivity. Qed.
+
+Lemma bind_ret_l {A B} (a : A) (k : A -> M B) s w : bind (ret a) k s w = k a s w.
+Proof. reflexivity. Qed.
+
 (* ---- tactics ------------------------------------------------------------------ *)
 
 (* unfold the state plumbing *)
@@ -130,4 +137,7 @@ Ltac blem :=
 Ltac bstep := erewrite bind_ok by blem; cbv beta.
 
 (* the state-plumbing binds compute by themselves *)
-Ltac bsteps := repeat first [ progress mcbn | ifb | bstep ]; try solve [ reflexivity | blem ].
+Ltac bsteps := repeat first [ progress mcbn | ifb | rewrite bind_assoc | bstep ]; try solve [ reflexivity | blem ].
+
+(* like bsteps, but never decides an [if] and never closes the goal *)
+Ltac bgo := repeat first [ rewrite bind_assoc | progress mcbn | bstep ].
